@@ -24,7 +24,7 @@ class Check(CheckBase):
 
     def generate(self):
         quick = self.tier == 'quick'
-        n = 64 if quick else 4000
+        n = 64 if quick else 10000
         cases = []
         for i in range(n):
             r = random.Random(f'C08/{self.seed}/{i}')
